@@ -501,6 +501,16 @@ func c05Feature(w *core.W, j int) {
 			setv(r2, "Longitude", uint64(int64(1)<<31+2*d))
 			c05Both(w, r2, "/Longitude/around-meridian")
 		}
+		// every value of the degrees / minutes / seconds / milliseconds subfields at least once (the
+		// text form pads them with zeros: 08, 09, 007 ...)
+		for k := 0; k < 60; k++ {
+			r := c05Base(g, l)
+			v := int64(k%90)*3600000 + int64(k)*60000 + int64((k*7)%60)*1000 + int64((k*37)%1000)
+			setv(r, "Latitude", uint64(int64(1)<<31+[]int64{v, -v}[k%2]))
+			v2 := int64((k*3)%180)*3600000 + int64(59-k)*60000 + int64(k)*1000 + int64((k*101)%1000)
+			setv(r, "Longitude", uint64(int64(1)<<31+[]int64{-v2, v2}[k%2]))
+			c05Both(w, r, "/position/subfields")
+		}
 		for m := 0; m <= 9; m++ {
 			for e := 0; e <= 9; e++ {
 				if m == 0 && e > 0 {
